@@ -78,28 +78,48 @@ func Main(id, level, rule string, assumes []string, defs []Def, quickBudget, tho
 		if *flagOnly != "" && !strings.Contains(defs[i].Name, *flagOnly) {
 			continue
 		}
-		sc := defs[i].Build()
-		sc.Bounds = defs[i].Quick
+		// Thorough tier: iterate the bound. Every level from the quick bounds up to the thorough target is explored
+		// in turn within the scenario's budget, so that the evidence names the deepest level that was COMPLETED even
+		// when the target level runs out of time (that level is then reported as truncated and exhaustive=false).
+		lv := []vsched.Bounds{defs[i].Quick}
 		if r.Thorough() {
-			sc.Bounds = defs[i].Thorough
+			lv = levels(defs[i].Quick, defs[i].Thorough)
 		}
-		if *flagP > -2 {
-			sc.Bounds.P = *flagP
+		override := *flagP > -2 || *flagD > -2 || *flagF > -2 || *flagT > -2
+		if override {
+			lv = lv[len(lv)-1:]
 		}
-		if *flagD > -2 {
-			sc.Bounds.D = *flagD
+		start := time.Now()
+		for li, b := range lv {
+			sc := defs[i].Build()
+			sc.Bounds = b
+			if *flagP > -2 {
+				sc.Bounds.P = *flagP
+			}
+			if *flagD > -2 {
+				sc.Bounds.D = *flagD
+			}
+			if *flagF > -2 {
+				sc.Bounds.F = *flagF
+			}
+			if *flagT > -2 {
+				sc.Bounds.T = *flagT
+			}
+			sc.Budget = budget - time.Since(start)
+			if li > 0 && sc.Budget < 3*time.Second {
+				sc.Budget = 3 * time.Second
+			}
+			t0 := time.Now()
+			res := vsched.ExploreSharded(sc, *flagShards)
+			fmt.Fprintf(os.Stderr, "%-44s %-12s exec=%d states=%d steps=%d pruned=%d outcomes=%d depth=%d trunc=%v steplimited=%d viol=%d %.1fs\n", sc.Name, res.Bounds, res.Executions, res.States, res.Steps, res.Pruned, len(res.Outcomes), res.MaxDepth, res.Truncated, res.StepLimited, len(res.Violations), time.Since(t0).Seconds())
+			c.Add(res)
+			if res.Truncated {
+				if li < len(lv)-1 {
+					c.Skipped(sc.Name, lv[len(lv)-1])
+				}
+				break
+			}
 		}
-		if *flagF > -2 {
-			sc.Bounds.F = *flagF
-		}
-		if *flagT > -2 {
-			sc.Bounds.T = *flagT
-		}
-		sc.Budget = budget
-		t0 := time.Now()
-		res := vsched.ExploreSharded(sc, *flagShards)
-		fmt.Fprintf(os.Stderr, "%-44s %-12s exec=%d states=%d steps=%d pruned=%d outcomes=%d depth=%d trunc=%v steplimited=%d viol=%d %.1fs\n", sc.Name, res.Bounds, res.Executions, res.States, res.Steps, res.Pruned, len(res.Outcomes), res.MaxDepth, res.Truncated, res.StepLimited, len(res.Violations), time.Since(t0).Seconds())
-		c.Add(res)
 	}
 	os.Exit(c.Finish())
 }
@@ -139,4 +159,35 @@ func replay(path string, defs []Def) int {
 	}
 	fmt.Fprintf(os.Stderr, "scenario %q not found\n", f.Replay.Scenario)
 	return 2
+}
+
+// levels lists the bounds explored in the thorough tier: the quick bounds, then every bound one step closer to the
+// target in each component that is still below it, and finally the target itself.
+func levels(q, t vsched.Bounds) []vsched.Bounds {
+	if q == t {
+		return []vsched.Bounds{t}
+	}
+	var out []vsched.Bounds
+	cur := q
+	for k := 0; k < 8; k++ {
+		out = append(out, cur)
+		next := cur
+		step := func(c *int, tgt int) {
+			if tgt >= 0 && *c >= 0 && *c < tgt {
+				*c++
+			}
+		}
+		step(&next.P, t.P)
+		step(&next.D, t.D)
+		step(&next.F, t.F)
+		step(&next.T, t.T)
+		if next == cur {
+			break
+		}
+		cur = next
+	}
+	if out[len(out)-1] != t {
+		out = append(out, t)
+	}
+	return out
 }
